@@ -45,7 +45,7 @@ import astload                                                  # noqa: E402
 import nvwp                                                     # noqa: E402
 from nvwp import V, Unsupported                                 # noqa: E402
 from cxx2c import unwrap, strip_cv, qual                        # noqa: E402
-from linalg import (Vcg, AV, MV, RV, t_dot, t_matvec, t_matmul, t_outer, t_transpose, t_madd, t_mscale, conj, eqs, flat, real_of,   # noqa: E402
+from linalg import (Vcg, AV, MV, RV, Stop, t_dot, t_matvec, t_matmul, t_outer, t_transpose, t_madd, t_mscale, conj, eqs, flat, real_of,   # noqa: E402
                     outer_template)
 from eig import type_str, lit_int, ITE                          # noqa: E402
 from iterwp import IterWP, Opaque, walk_iteration, is_type, VEC_RX, MAT_RX, STATE_RX   # noqa: E402
@@ -247,6 +247,27 @@ class EllWP(IterWP):
             return self.ev(n['inner'][0])          # matrix_t{expression}: a tensor constructed from an Eigen expression holds its value
         return super().ev(n)
 
+    def loop(self, n):
+        """the main loop written as `for (init; cond; inc)`: the same walk as for `while (cond)` (init before the head, inc after the body)"""
+        if n.get('kind') == 'ForStmt' and not getattr(self, 'in_main', False):
+            init, condvar, cond, inc, body = n['inner']
+            if condvar:
+                raise Unsupported(f'{self.name}: main loop with a condition variable')
+            if init:
+                self.ex(init)
+            self.in_main = True
+            if self.scenario != 'first':
+                self.head(self)
+            self.entry_env = dict(self.env)
+            if cond:
+                self.ev(cond)
+            self.ex(body)
+            if inc and self.guard != 'false':
+                self.ev(inc)
+            self.end_env, self.end_guard = dict(self.env), self.guard
+            raise Stop()
+        return super().loop(n)
+
     def mentions(self, node, key):
         for x in astload.walk(node):
             if x.get('kind') == 'DeclRefExpr':
@@ -296,7 +317,6 @@ def walk(n, first):
         pass
     fn = astload.find_definition(TU, FLT, 'do_minimize')
     wp = EllWP(name, n, TU, scenario='first' if first else 'generic', head=None if first else head_state(n))
-    from linalg import Stop
     for key, p in wp.bind_params(fn):
         if key == 'x0':
             wp.new_vec('x0', 'x0')
